@@ -566,11 +566,36 @@ def oracle_circuit_sat(dump, ins, raw_default, expect):
 #   chain-   the same plus the unit clause -xk           unsatisfiable, and satisfiable as soon as any clause is lost
 #   and-row  y_i = AND(x_i, x_i+1) all outputs           satisfiable only by all-True inputs (circuit query)
 #   and-row- the same plus the output NOT(x_mid)         unsatisfiable (circuit query)
+#   deep     g_i = AND(g_(i-1), x_i), output g_n         a cone of depth n = 250..400 (an encoder that treats deep cones
+#   deep-    the same plus the output NOT(x_0)             differently from shallow ones); satisfiable only by all-True / not at all
 LARGE_SIZES = (1000, 1025, 4097, 8200, 8300, 9000, 16400, 16500, 33000)
 
 
+DEEP_SIZES = (250, 320, 400)       # depth of an AND chain (well inside CPython's default recursion limit)
+
+
 def large_cases():
-    return [{'large': {'kind': k, 'n': n}} for n in LARGE_SIZES for k in ('chain', 'chain-', 'and-row', 'and-row-')]
+    return [{'large': {'kind': k, 'n': n}} for n in LARGE_SIZES for k in ('chain', 'chain-', 'and-row', 'and-row-')] \
+        + [{'large': {'kind': k, 'n': n}} for n in DEEP_SIZES for k in ('deep', 'deep-')]
+
+
+def _deep(n, sat):
+    """g_i = AND(g_(i-1), x_i): a cone of depth n that only all-True inputs satisfy; with the output NOT(x_0) none"""
+    ins = [f'x{i}' for i in range(n + 1)]
+    gs = [(i, 'INPUT', []) for i in ins]
+    prev = ins[0]
+    for i in range(1, n + 1):
+        gs.append((f'g{i}', 'AND', [prev, ins[i]]))
+        prev = f'g{i}'
+    outs = [prev]
+    if not sat:
+        gs.append(('z', 'NOT', [ins[0]]))
+        outs.append('z')
+    users = {}
+    for l, _, ops in gs:
+        for o in ops:
+            users.setdefault(o, []).append(l)
+    return {'inputs': ins, 'outputs': outs, 'gates': gs, 'users': list(users.items()), 'blocks': []}
 
 
 def _and_row(n, sat):
@@ -600,6 +625,10 @@ def oracle_large(case):
             raw = [[1]] + [[-i, i + 1] for i in range(1, n)] + ([] if expect else [[-n]])
             r = is_satisfiable(Cnf(raw))
             nin = n
+        elif kind.startswith('deep'):
+            dump = _deep(n, expect)
+            r = is_circuit_satisfiable(ct.build_circuit(dump))
+            nin = len(dump['inputs'])
         else:
             dump = _and_row(max(3, n // 4), expect)          # about n clauses
             r = is_circuit_satisfiable(ct.build_circuit(dump))
